@@ -607,7 +607,7 @@ def renew (so : ScriptOf) (a : Account) (newExpiry : UInt32) (rate : Int) (best 
 /-- `CloseAccount` -/
 def close (so : ScriptOf) (a : Account) (fe : FeeExpr) (walletScript : Bool → Script) (best : UInt32)
     (f : Faults) : OpResult :=
-  if a.state = StatePendingClosed ∨ a.state = StateClosed then refuse .badState else
+  if ¬ (a.state = StateOpen ∨ a.state = StateExpired) then refuse .badState else
   let wt := determineWitnessType a best
   match fe.closeOutputs walletScript a.value wt with
   | .error r => refuse r
